@@ -50,6 +50,8 @@ func (s Step) String() string {
 		return fmt.Sprintf("set %s=%s(%d)", s.Pkg, s.Variant, s.N)
 	case "delete":
 		return "delete " + s.Pkg
+	case "touch":
+		return "touch " + s.Pkg + " " + s.Mode
 	case "corrupt":
 		return fmt.Sprintf("corrupt %s %s%s cut=%d", s.Pkg, s.Prefix, s.Mode, s.Cut)
 	}
@@ -148,7 +150,9 @@ func GenCase(r *rand.Rand, prop string, thorough bool) *Case {
 	faultRate := pick(r, []int{0, 15, 25, 40})
 	optRate := pick(r, []int{0, 20, 50})
 	for i := 0; i < nsteps; i++ {
-		switch weighted(r, []string{"cmd", "setvariant", "corrupt", "delete"}, []int{55, 20, 17, 8}) {
+		switch weighted(r, []string{"cmd", "setvariant", "corrupt", "delete", "touch"}, []int{55, 19, 16, 5, 5}) {
+		case "touch":
+			c.Steps = append(c.Steps, Step{Op: "touch", Pkg: pick(r, nonlib), Mode: pick(r, []string{"sources-old", "sources-new", "output-old", "output-new", "all-old"})})
 		case "setvariant":
 			p := pick(r, names)
 			if p == "lib" {
